@@ -58,6 +58,9 @@ var props = map[string]propCfg{
 	"C01": {quick: 2000000, thorough: 150000000, level: "exploration", stallS: 120, engine: "E4 operation histories against a list-of-rows reference model",
 		components: "real: align.Alignment / align.SeqBag and every operation of the history (AddSequence, Append, Concat, Rename, RenameRegexp, CleanNames, TrimNames, TrimNamesAuto, AppendSeqIdentifier, Sort, ShuffleSequences, FilterLength, Deduplicate, RemoveGapSeqs, RemoveGapSites, TrimSequences, Translate, Clone, Sample, Clear, SubAlign, Unalign, Replace, ToUpper, ToLower, IgnoreIdentical) and all accessors; environment: the simulated client (history generator), per-operation random seeds, map-order seam; stubs: none",
 		assumptions: []string{"the reference model implements each operation from its documentation comment; where the comment does not fix the result (name cleaning / trimming, gap and character filters, translation, trimming) the operation is held to the invariants only and the model is re-read from the container", "by-name lookups are only compared for names that are unique in the container (the statement excepts names the caller made equal)", "no goroutine, stream or clock is involved: what is simulated is the client's history, including operations that must be rejected"}},
+	"C19": {quick: 400000, thorough: 40000000, level: "exploration", stallS: 120, engine: "E4 operation histories over a pool of live objects",
+		components: "real: the 7 writers, the statistics, Consensus, Entropy, Pssm, CountProfile, DistMatrix (its own goroutines, unscheduled here), protein MLDist, the pairwise aligner, LongestORF, Unalign, Transpose, BuildBootstrap, Clone, CloneSeqBag, SubAlign, SelectSites, Sequence.Clone and the in-place mutators; environment: the simulated client (history generator), map-order seam; stubs: none",
+		assumptions: []string{"independence is only demanded of what the statement names (clones, sub-alignments, site selections, cloned sequences); Sample, Append and SequenceChar share storage by design and are not alarmed", "DistMatrix and Phase under seeded schedules are covered by C08 and C16, whose runs snapshot their inputs; here DistMatrix runs with real unscheduled goroutines", "sequences that contain no ORF make Phase crash in a worker (outside C16's quantifier), so Phase is not part of these histories"}},
 	"C03": {quick: 2000000, thorough: 150000000, level: "fault_enumeration", stallS: 60, vlimitKB: 8 << 20, acceptExitDeath: true, engine: "E2 simulated stream with fault injection",
 		components: "real: the 6 lexers and 7 parsers (fasta, phylip strict/relaxed incl. ParseMultiple, nexus, clustal, stockholm, partition), utils.ParseAlignmentAuto, utils.ParseMultiAlignmentsAuto and its parser goroutine, bufio; environment: simFile (io.Reader + io.Closer: fragmentation, empty reads, EOF style, read errors, post-EOF read budget), os.Exit seam; stubs: none",
 		assumptions: []string{"a parser that asks the stream for more data 10000 times after the end was reported is looping (the budget is far above what bufio and the lexers need: they stop at the first EOF token)", "an out-of-memory death of a worker under an 8 GiB address-space limit counts as a crash caused by the input", "seeded search samples the fault space; only the stated sweeps (every prefix / every structural byte of the corpus files) are exhaustive"}},
